@@ -87,6 +87,11 @@ CHECKS = {
             "Generated-input search with exact reference probabilities; statistical comparisons use 6 standard errors of exactly known sampling distributions and seeded RNGs, so a run is reproducible and the false-alarm probability is < 1e-6.",
             "Trusted: vlib/refstats.py closed forms; scipy.stats.poisson.pmf for the exact sums; distributional claims are tested through two moments and exact tail masses only.",
             "DESIGN.md#c14"),
+    "C15": ("exploration",
+            "metamorphic testing: Hypothesis-generated sensitive well-posed models x data x compositions (depth 1-3) of seven likelihood-preserving rewrites; relations: maximised 2NLL (minus log 2pi per added constraint), test statistic, observed and expected CLs unchanged; covariance under signal rescaling; agreement of a second backend / minuit",
+            "Generated-input search over models and rewrite compositions where no stored oracle exists; the relation between two inference runs is the oracle.",
+            "Trusted: each rewrite preserves the likelihood by construction (props/c15.py); fits at tight tolerance, best of {scipy, minuit} per side to remove optimiser path dependence on multi-modal likelihoods; configuration comparisons that end in different local minima of the same function are counted, not reported.",
+            "DESIGN.md#c15"),
 }
 
 NOT_YET = "check not built yet in this session (work in progress; the design in DESIGN.md section 5 applies)"
